@@ -265,10 +265,11 @@ struct HllObj : Obj {
   // hll.hpp documents that for HLL_4 the advertised maximum "can be exceeded in extremely rare cases" (large aux map): not gated for HLL_4
   long max_size() { return updatable && sk.get_target_type() != HLL_4 ? (long)Hll::get_max_updatable_serialization_bytes(sk.get_lg_config_k(), sk.get_target_type()) : -1; }
   void exercise() { sk.serialize_compact(); sk.serialize_updatable(); for (int t = 0; t < 3; ++t) { Hll c(sk, (target_hll_type)t); c.get_estimate(); c.serialize_compact(); } sk.to_string(true, true, true, true); }
-  size_t ncont() { return 3; }
-  std::string cont_name(size_t i) { return i == 0 ? "update x5" : i == 1 ? "update x lots" : "union-with-operand"; }
+  size_t ncont() { return 4; }
+  std::string cont_name(size_t i) { return i == 0 ? "update x5" : i == 1 ? "update x lots" : i == 2 ? "union-with-operand" : "reset, update x40"; }
   void cont(size_t i) {
-    if (i == 0) for (int j = 0; j < 5; ++j) sk.update((uint64_t)(777000 + j));
+    if (i == 3) { sk.reset(); for (int j = 0; j < 40; ++j) sk.update((uint64_t)(555000 + j)); }
+    else if (i == 0) for (int j = 0; j < 5; ++j) sk.update((uint64_t)(777000 + j));
     else if (i == 1) for (int j = 0; j < 300; ++j) sk.update((uint64_t)(888000 + j));
     else { HllU u(sk.get_lg_config_k(), A8(1)); Hll b(7, HLL_8, false, A8(1)); for (int j = 0; j < 90; ++j) b.update((uint64_t)(999000 + j)); u.update(sk); u.update(b); sk = u.get_result(sk.get_target_type()); }
   }
